@@ -225,10 +225,17 @@ class Evaluator:
         elif isinstance(st, ast.Try):
             try:
                 self._block(st.body, env)
-            except Raised:
+            except Raised as ex_:
                 if not st.handlers:
                     raise
-                self._block(st.handlers[0].body, env)
+                h_ = st.handlers[0]
+                if h_.name:
+                    env[h_.name] = getattr(ex_, "what", str(ex_))     # `except ... as e`: bound to the description of what was raised
+                try:
+                    self._block(h_.body, env)
+                finally:
+                    if h_.name:
+                        env.pop(h_.name, None)                      # and unbound when the handler ends, as Python 3 does
             else:
                 self._block(st.orelse, env)
             self._block(st.finalbody, env)
